@@ -29,6 +29,9 @@ struct Shared
   {
     spl = smooth::Spline<3, SE2>::ConstantVelocity(Eigen::Vector3d(in[23], in[24], in[25]), 1.5, se2);
     spl += smooth::Spline<3, SE2>::ConstantVelocity(Eigen::Vector3d(in[24], in[25], in[23]), 2.0);
+    // segments that start in the middle of their cubic (crop): evaluation takes the start-compensation branch there
+    spl += smooth::Spline<3, SE2>::ConstantVelocity(Eigen::Vector3d(in[25], in[23], in[24]), 2.0).crop(0.5, 1.75);
+    spl += smooth::Spline<3, SE2>::ConstantVelocity(Eigen::Vector3d(in[23], in[25], in[24]), 1.0).crop(0.25, 0.75);
     std::vector<SO3> cp{vm::load<SO3>(in), vm::load<SO3>(in + 15), vm::load<SO3>(in + 19), vm::load<SO3>(in), vm::load<SO3>(in + 15)};
     bsp = smooth::BSpline<3, SO3>(0., 1., cp);
   }
